@@ -1,7 +1,8 @@
 import GlmVerif.Spec.C02
-import GlmVerif.Gen.C02
-/-! table check of family `col_get` against the model generated from /repo (kernel evaluation) -/
+import GlmVerif.Gen.C02.col_get
+/-! table check of family `col_get` against the model of its units generated from /repo (kernel evaluation) -/
 namespace Glm.Props.C02
 open Glm Glm.Spec.C02 Glm.Gen.C02
-theorem col_get_ok : f_col_get.ok lookup = true := by decide +kernel
+set_option maxHeartbeats 4000000 in
+theorem col_get_ok : f_col_get.ok (fun _ ks => col_get_L ks) = true := by decide +kernel
 end Glm.Props.C02
